@@ -217,7 +217,12 @@ def run(ctx):
                 ctx.ok("R3", f"{f.name}: conversion dominated by warn(PrepareDumpWarning)", f"{f.module.relpath}:{warn_st.lineno}")
             else:
                 ctx.violate("R3", f"{f.name}: conversion is not announced by a PrepareDumpWarning on every path", f, r)
+    from .apiplumb import check_prepare_arguments, check_prepared_object_used
 
+    ctx.rule("R5", "the API writes and returns the object prepare_dump returned", "the conversion is announced but the unconverted object is written (or the caller gets back an object that was not the one written)")
+    check_prepared_object_used(ctx, "R5")
+    ctx.rule("R6", "the caller's allow_changes reaches prepare_dump; its default is False", "objects are converted although the caller did not allow it")
+    check_prepare_arguments(ctx, "R6")
 
 def deref_attr(func, node):
     return node
